@@ -32,6 +32,48 @@ class MachineryError(Exception):
     """exit 2: the machinery could not decide (never a violation)."""
 
 
+class ClientStall(Exception):
+    """A scenario did not end (verifsim.Bubble's real-time limit) and the saved stacks show goroutines of the client blocked
+    for ever on one of the client's own mutexes while nothing of the harness holds them up: a dead-lock in the code under
+    test. Carries the violation (sig, desc)."""
+    def __init__(self, sig, desc):
+        Exception.__init__(self, desc)
+        self.sig, self.desc = sig, desc
+
+
+def classify_stall(text, pkg, run):
+    """Stacks of a stalled scenario -> ClientStall (the client dead-locked) or MachineryError (anything else)."""
+    gor = [g for g in text.split("\n\n") if g.startswith("goroutine ")]
+    def client_frames(g):
+        return [l.strip() for l in g.splitlines() if l.startswith("\t") and (REPO + "/") in l and "zz_verif" not in l
+                and "/internal/verifsim/" not in l]
+    # a goroutine of the client parked inside a harness hook (or a held connection operation) means the harness is what
+    # keeps the others waiting: never a verdict
+    for g in gor:
+        if ("vhook(" in g or "verifsim.(*Conn).before" in g) and "[running" not in g.splitlines()[0]:
+            return MachineryError("%s -run %s: a scenario stalled while the harness holds a goroutine of the client inside a hook:\n%s"
+                                  % (pkg, run, g[:1500]))
+    locked = [g for g in gor if re.match(r"goroutine \d+ \[sync\.(RW)?Mutex\.(R)?Lock", g) and client_frames(g)
+              and "zz_verif" not in g.split("\n")[1] and "verifsim." not in g.split("\n")[1]]
+    mine = []
+    for g in locked:
+        # the frame right under sync.(*Mutex).Lock must be the client's
+        lines = g.splitlines()
+        funcs = [l for l in lines[1:] if not l.startswith("\t")]
+        callers = [f for f in funcs if not f.startswith(("sync.", "internal/", "runtime."))]
+        if callers and "tsuna/gohbase" in callers[0] and "zz_verif" not in g.split(callers[0])[1].split("\n")[1] \
+                and "verifsim" not in callers[0]:
+            mine.append(g)
+    if mine:
+        where = sorted({re.sub(r"\(.*", "", [f for f in g.splitlines()[1:] if not f.startswith("\t") and not f.startswith(("sync.", "internal/", "runtime."))][0])
+                        for g in mine})
+        return ClientStall("client-deadlock:" + ",".join(w.split("/")[-1] for w in where)[:120],
+                           "a scenario of %s never ended: %d goroutine(s) of the client are blocked for ever on a mutex of the client (%s) and nothing "
+                           "of the harness holds them up:\n%s" % (run, len(mine), ", ".join(where), "\n\n".join(m[:900] for m in mine[:3])))
+    return MachineryError("%s -run %s: a scenario did not end within the real-time limit and no dead-lock of the client explains it:\n%s"
+                          % (pkg, run, text[:3000]))
+
+
 def log(*a):
     print(*a, flush=True)
 
@@ -199,6 +241,9 @@ def go_test(pkg, run, env=None, timeout=900, race=False, wd=None, tags="verif", 
         if isinstance(out, bytes):
             out = out.decode(errors="replace")
         raise MachineryError("go test %s -run %s timed out after %ss\n%s" % (pkg, run, timeout, out[-3000:]))
+    stallf = os.path.join((env or {}).get("VERIF_OUT", ""), "stall.txt") if (env or {}).get("VERIF_OUT") else ""
+    if stallf and os.path.exists(stallf):
+        raise classify_stall(open(stallf, errors="replace").read(), pkg, run)
     if rc != 0 and ("[build failed]" in out or "[setup failed]" in out or re.search(r"^# ", out, re.M) and "FAIL" in out and "--- FAIL" not in out and "panic:" not in out):
         raise MachineryError("harness does not build against /repo's working tree:\n" + out[-4000:])
     return dict(rc=rc, out=out, wall_s=time.time() - t0)
